@@ -466,7 +466,10 @@ class Arm(Robot):
         free_thetas = solver_result.x
         theta = np.squeeze(theta_init)
         theta[inds] = np.squeeze(free_thetas)
-        if fmr.Norm6((goal_position - self.FK(theta))[0:6]) < 0.001:
+        error = fmr.se3ToVec(fmr.MatrixLog6(
+            fmr.TransInv(self.FK(theta).gTM()) @ goal_position.gTM()))
+        if (np.linalg.norm(error[0:3]) <= self.rot_tolerance and
+                np.linalg.norm(error[3:6]) <= self.pos_tolerance):
             return (theta, True)
         return (theta, False)
 
